@@ -28,7 +28,13 @@ static struct msa* mk_msa(int n, int tag)
         int i, rc;
         rc = alloc_msa(&m, KV_CAP);
         __CPROVER_assume(rc == OK);
+#ifdef KV_FULL
+        /* the record table may be exactly full: the readers grow it lazily (before the next record is stored), so an msa
+           with numseq == alloc_numseq is what read_fasta / read_clu / read_msf return for 512*k records (here: KV_CAP*k) */
+        while(m->alloc_numseq < n){ rc = resize_msa(m); __CPROVER_assume(rc == OK); }
+#else
         while(m->alloc_numseq <= n){ rc = resize_msa(m); __CPROVER_assume(rc == OK); }
+#endif
         for(i = 0; i < n; i++){
                 struct msa_seq* s = m->sequences[i];
                 s->len = 1; s->seq[0] = 'A'; s->seq[1] = 0; s->s[0] = 0;
